@@ -103,6 +103,7 @@ type NodeSh struct {
 	pSet       bool
 	pTerm      uint64
 	pVote      string
+	stateVer   uint64 // number of state.set / state.open events so far
 	voteByTerm map[uint64]string
 	voteSeq    map[uint64]uint64
 	termFloor  uint64
@@ -268,6 +269,13 @@ func (m *Monitor) LogVersion(node string) uint64 {
 	m.mu.Lock()
 	defer m.mu.Unlock()
 	return m.node(node).logVer
+}
+
+// StateVersion returns the number of term/vote storage events recorded for a node so far.
+func (m *Monitor) StateVersion(node string) uint64 {
+	m.mu.Lock()
+	defer m.mu.Unlock()
+	return m.node(node).stateVer
 }
 
 // TermFloor returns the largest term observed so far for a node id.
@@ -1011,6 +1019,7 @@ func (m *Monitor) checkMajority(ev *Event, idx uint64, e Entry, how string) {
 
 func (m *Monitor) onStateSet(ev *Event) {
 	n := m.node(ev.Node)
+	n.stateVer++
 	term, vote := ev.Term, ev.Str
 	if n.pSet && term < n.pTerm {
 		m.violate(ev, []string{"C08"}, "persisted-term-decreased", n.ID, "node %s persisted term %d after term %d", n.ID, term, n.pTerm)
@@ -1050,6 +1059,7 @@ func (m *Monitor) onStateSet(ev *Event) {
 
 func (m *Monitor) onStateOpen(ev *Event) {
 	n := m.node(ev.Node)
+	n.stateVer++
 	if n.pSet {
 		if ev.Term != n.pTerm || ev.Str != n.pVote {
 			m.violate(ev, []string{"C08", "C13"}, "state-not-durable", n.ID, "node %s inc %d reopened term/vote as (%d,%q), last completed write was (%d,%q)", n.ID, ev.Inc, ev.Term, ev.Str, n.pTerm, n.pVote)
@@ -1508,6 +1518,16 @@ func (m *Monitor) onSample(ev *Event) {
 		}
 	}
 	n.role = s.State
+	// C08: term and vote in memory are the stored ones. Every change of either is written within the same critical
+	// section, and the sample is taken under the node's lock; the clause applies when no storage event of the node
+	// was recorded between just before the sample was taken and now. (A vote held in memory only - a candidate's
+	// vote for itself, say - is forgotten by a restart, after which the node can vote again in that term.)
+	if n.pSet && s.SV != 0 && s.SV == n.stateVer {
+		m.Counts["c08.memory_vs_disk_checks"]++
+		if s.Term != n.pTerm || s.Vote != n.pVote {
+			m.violate(ev, []string{"C08", "C02"}, "term-vote-memory-differs-from-disk", n.ID, "node %s holds (term %d, vote %q) in memory while the last completed write of its term/vote storage is (term %d, vote %q)", n.ID, s.Term, s.Vote, n.pTerm, n.pVote)
+		}
+	}
 	// C09 (1): the configuration a node reports is the configuration entry at that index of its own log
 	// (only when the log shadow has not changed since before the sample was taken: otherwise the entry at that
 	// index may already be another one)
